@@ -27,7 +27,15 @@ func DeepCast(val Value, typ ast.Type, span errors.Span, allowCasts bool) (*Valu
 			}
 			return NewValueOption(innerCast), nil
 		}
-		return NewValueOption(&val), nil
+		// A plain value is only wrapped if it fits the inner type (`null` becomes `none`).
+		if val.Kind() == NullValueKind {
+			return NewNoneOption(), nil
+		}
+		wrappedInner, i := DeepCast(val, typ.(ast.OptionType).Inner, span, allowCasts)
+		if i != nil {
+			return nil, i
+		}
+		return NewValueOption(wrappedInner), nil
 	}
 
 	switch val.Kind() {
